@@ -9,6 +9,7 @@ Local Open Scope nat_scope.
 Inductive pres := Done (s : pstate) | Pending (s : pstate) (f : flag) | Err.
 
 Definition set_flag (st : pstate) (n v : str) : pstate := mkP (p_args st) (p_dash st) (p_sets st ++ [(n, v)]) false.
+Definition add_sets (st : pstate) (sets : list (str * str)) : pstate := mkP (p_args st) (p_dash st) (p_sets st ++ sets) false.
 
 Fixpoint pfp (fs : list flag) (il : bool) (pend : option flag) (ws : list str) (st : pstate) : pres :=
   match ws with
@@ -21,7 +22,11 @@ Fixpoint pfp (fs : list flag) (il : bool) (pend : option flag) (ws : list str) (
       else if str_eqb w dash2 then pfp fs il None rest (mkP (p_args st) (Some (length (p_args st))) (p_sets st) true)
       else if negb (starts_dash w) || str_eqb w (B [45]) then
         pfp fs il None rest (mkP (p_args st ++ [w]) (p_dash st) (p_sets st) (negb il))
-      else if negb (has_prefix w dash2) then Err
+      else if negb (has_prefix w dash2) then
+        match chain fs (drop 1 w) with
+        | None => Err
+        | Some (sets, pend') => pfp fs il pend' rest (add_sets st sets)
+        end
       else
         let '(n, v) := long_parts w in
         match n with
@@ -60,7 +65,10 @@ Proof.
   cbn [pf_parse pfp]. destruct (p_stopped st); [apply IH|].
   destruct (str_eqb w dash2); [apply IH|].
   destruct (negb (starts_dash w) || str_eqb w (B [45])); [apply IH|].
-  destruct (negb (has_prefix w dash2)); [reflexivity|].
+  destruct (negb (has_prefix w dash2)).
+  { destruct (chain fs (drop 1 w)) as [[sets [g|]]|]; [| apply IH | reflexivity].
+    destruct (IH (add_sets st sets)) as [_ H2]. rewrite <- (H2 g).
+    destruct rest as [|x rest']; [reflexivity|]. unfold set_flag, add_sets. cbn [p_args p_dash p_sets]. rewrite <- app_assoc. reflexivity. }
   destruct (long_parts w) as [n v]. destruct n as [|c n']; [reflexivity|].
   destruct (beq c (byte 45)); [reflexivity|].
   destruct (find_flag fs (c :: n')) as [f|] eqn:Ef; [|reflexivity].
@@ -86,15 +94,13 @@ Proof.
     destruct (p_stopped st); [apply IH|].
     destruct (str_eqb w dash2); [apply IH|].
     destruct (negb (starts_dash w) || str_eqb w (B [45])); [apply IH|].
-    destruct (negb (has_prefix w dash2)); [reflexivity|].
+    destruct (negb (has_prefix w dash2)); [destruct (chain fs (drop 1 w)) as [[sets pd]|]; [apply IH|reflexivity]|].
     destruct (long_parts w) as [n v]. destruct n as [|c n']; [reflexivity|].
     destruct (beq c (byte 45)); [reflexivity|].
     destruct (find_flag fs (c :: n')) as [f|]; [|reflexivity].
     destruct v as [x|]; [apply IH|]. destruct (takes_next f); apply IH.
 Qed.
 
-(* words of the fragment: not starting with a dash, or starting with two dashes *)
-Definition wf_word (w : str) : bool := negb (starts_dash w) || has_prefix w dash2.
 
 (* ---------- traverse's bookkeeping follows the parser ---------- *)
 Lemma t_inargs_all fs il ws : forall st, t_inargs (t_loop fs il ws st) = t_inargs st ++ ws.
@@ -103,7 +109,7 @@ Proof.
   destruct (t_dash st); [reflexivity|].
   destruct (t_inflag st); [rewrite IH; cbn [t_inargs]; rewrite <- app_assoc; reflexivity|].
   destruct (str_eqb w dash2); [reflexivity|].
-  destruct (starts_dash w && (il || Nat.eqb (t_npos st) 0)); rewrite IH; cbn [t_inargs]; rewrite <- app_assoc; reflexivity.
+  destruct (starts_dash w && negb (str_eqb w (B [45])) && (il || Nat.eqb (t_npos st) 0)); rewrite IH; cbn [t_inargs]; rewrite <- app_assoc; reflexivity.
 Qed.
 
 Definition pending_of (r : pres) : option flag := match r with Pending _ f => Some f | _ => None end.
@@ -134,23 +140,40 @@ Definition J (il : bool) (tst : tstate) (pend : option flag) (pst : pstate) : Pr
   (p_stopped pst = true -> il = false /\ t_npos tst <> 0) /\
   (pend <> None -> p_stopped pst = false).
 
-Lemma wf_word_plain w : wf_word w = true -> negb (starts_dash w) || str_eqb w (B [45]) = true -> starts_dash w = false.
-Proof.
-  unfold wf_word. destruct (starts_dash w) eqn:E; [|reflexivity]. cbn [negb orb]. intros H1 H2.
-  apply str_eqb_true in H2. subst w. discriminate.
-Qed.
-
 Lemma flag_cond il tst : il = true \/ t_npos tst = 0 -> il || Nat.eqb (t_npos tst) 0 = true.
 Proof. intros [H|H]; rewrite H; [reflexivity|]. apply orb_true_r. Qed.
 
-Lemma joint fs il ws : Forall (fun w => wf_word w = true) ws ->
+(* the flag a shorthand word leaves waiting, as traverse sees it, is the one the parser leaves waiting *)
+Lemma chain_pending fs ls : find_short fs (byte 61) = None -> forall sets pend, chain fs ls = Some (sets, pend) ->
+  match lookup_short_letters fs ls with
+  | Some (f, false) => if takes_next f then Some f else None
+  | _ => None
+  end = pend.
+Proof.
+  intro Hq. induction ls as [|c ls IH]; intros sets pend H; cbn [chain lookup_short_letters] in *.
+  - injection H as <- <-. reflexivity.
+  - destruct (find_short fs c) as [f|]; [|discriminate].
+    destruct ls as [|e v].
+    + destruct (takes_next f); injection H as <- <-; reflexivity.
+    + destruct (beq e (byte 61)) eqn:Ee.
+      * cbn [andb] in H. destruct v as [|v0 v']; cbn [negb] in H.
+        -- destruct (takes_next f); [injection H as <- <-; reflexivity|].
+           (* `-b=`: the parser goes on with the letter `=` and fails *)
+           cbn [chain] in H. apply beq_true in Ee. subst e. rewrite Hq in H. discriminate.
+        -- injection H as <- <-. reflexivity.
+      * cbn [andb] in H. destruct (takes_next f); [injection H as <- <-; reflexivity|].
+        destruct (chain fs (e :: v)) as [[sets' pend']|] eqn:Ec; [|discriminate]. injection H as <- <-.
+        exact (IH _ _ eq_refl).
+Qed.
+
+Lemma joint fs il ws : find_short fs (byte 61) = None ->
   forall tst pend pst, J il tst pend pst ->
   forall r, pfp fs il pend ws pst = r -> r <> Err ->
   t_inflag (t_loop fs il ws tst) = pending_of r /\
   (forall p', state_of r = Some p' -> p_dash p' = None ->
      (il || Nat.eqb (t_npos (t_loop fs il ws tst)) 0) = negb (p_stopped p')).
 Proof.
-  induction 1 as [|w rest Hw Hrest IH]; intros tst pend pst (Jd & Jf & Jn & Ju & Js & Jp) r Hr Hne.
+  intro Hq. induction ws as [|w rest IH]; intros tst pend pst (Jd & Jf & Jn & Ju & Js & Jp) r Hr Hne.
   - cbn [pfp t_loop] in *. destruct pend as [f|]; subst r; cbn [pending_of state_of]; (split; [exact Jf|]).
     + intros p' E Hd. injection E as <-. rewrite (Jp ltac:(discriminate)). cbn [negb].
       apply flag_cond, Ju, Jp. discriminate.
@@ -169,7 +192,7 @@ Proof.
         -- destruct (pfp_stopped fs il rest (mkP (p_args pst ++ [w]) (p_dash pst) (p_sets pst) true) eq_refl) as (p' & H1 & H2 & H3 & _).
            rewrite H1 in Hr. subst r. cbn [pending_of state_of t_inflag t_npos]. split; [reflexivity|].
            intros p'' E _. injection E as <-. rewrite H2, Hil. cbn [orb negb]. apply Nat.eqb_neq. exact Hn.
-        -- assert (Hc : starts_dash w && (il || Nat.eqb (t_npos tst) 0) = false).
+        -- assert (Hc : starts_dash w && negb (str_eqb w (B [45])) && (il || Nat.eqb (t_npos tst) 0) = false).
            { rewrite Hil. cbn [orb]. apply Nat.eqb_neq in Hn. rewrite Hn. apply andb_false_r. }
            rewrite Hc. apply (IH _ None (mkP (p_args pst ++ [w]) (p_dash pst) (p_sets pst) true)); [|exact Hr|exact Hne].
            unfold J. cbn [t_dash t_inflag t_npos p_stopped p_dash]. repeat split; auto; try discriminate.
@@ -179,38 +202,50 @@ Proof.
            rewrite H1 in Hr. subst r. cbn [pending_of state_of t_inflag t_npos]. split; [reflexivity|].
            intros p'' E Hd. injection E as <-. rewrite H3 in Hd. discriminate.
         -- destruct (negb (starts_dash w) || str_eqb w (B [45])) eqn:Ep.
-           ++ (* positional *)
-              rewrite (wf_word_plain w Hw Ep). cbn [andb].
+           ++ (* positional (a lone dash included) *)
+              assert (Hc : starts_dash w && negb (str_eqb w (B [45])) = false).
+              { destruct (starts_dash w); [|reflexivity]. cbn [negb orb andb] in *. rewrite Ep. reflexivity. }
+              rewrite Hc. cbn [andb].
               apply (IH _ None (mkP (p_args pst ++ [w]) (p_dash pst) (p_sets pst) (negb il))); [|exact Hr|exact Hne].
               unfold J. cbn [t_dash t_inflag t_npos p_stopped p_dash]. repeat split; auto; try discriminate.
               all: destruct il; cbn [negb]; intros; auto; try discriminate; try congruence.
-           ++ (* a long flag *)
-              apply orb_false_iff in Ep as [Ep _]. apply negb_false_iff in Ep.
-              unfold wf_word in Hw. rewrite Ep in Hw. cbn [negb orb] in Hw. rewrite Hw in Hr. cbn [negb] in Hr.
-              rewrite Ep, (flag_cond il tst (Ju eq_refl)). cbn [andb].
-              destruct (long_parts w) as [n v] eqn:El. rewrite (lookup_arg_long fs w n v Hw El).
-              destruct n as [|c n']; [subst r; contradiction|].
-              destruct (beq c (byte 45)); [subst r; contradiction|].
-              destruct (find_flag fs (c :: n')) as [f|] eqn:Ef; [|subst r; contradiction].
-              destruct v as [x|].
-              ** apply (IH _ None (set_flag pst (c :: n') x)); [|exact Hr|exact Hne].
-                 unfold J. cbn [t_dash t_inflag t_npos p_stopped p_dash set_flag]. repeat split; auto; try discriminate.
-              ** destruct (takes_next f).
-                 --- apply (IH _ (Some f) pst); [|exact Hr|exact Hne].
-                     unfold J. cbn [t_dash t_inflag t_npos]. repeat split; auto; try discriminate; try congruence.
-                 --- apply (IH _ None (set_flag pst (c :: n') (noopt f))); [|exact Hr|exact Hne].
+           ++ (* a flag word *)
+              apply orb_false_iff in Ep as [Ep Ep1]. apply negb_false_iff in Ep.
+              rewrite Ep, Ep1, (flag_cond il tst (Ju eq_refl)). cbn [negb andb].
+              unfold pending_after.
+              destruct (has_prefix w dash2) eqn:Hw; cbn [negb] in Hr.
+              ** (* long form *)
+                 destruct (long_parts w) as [n v] eqn:El. rewrite (lookup_arg_long fs w n v Hw El).
+                 destruct n as [|c n']; [subst r; contradiction|].
+                 destruct (beq c (byte 45)); [subst r; contradiction|].
+                 destruct (find_flag fs (c :: n')) as [f|] eqn:Ef; [|subst r; contradiction].
+                 destruct v as [x|].
+                 --- apply (IH _ None (set_flag pst (c :: n') x)); [|exact Hr|exact Hne].
                      unfold J. cbn [t_dash t_inflag t_npos p_stopped p_dash set_flag]. repeat split; auto; try discriminate.
+                 --- destruct (takes_next f).
+                     +++ apply (IH _ (Some f) pst); [|exact Hr|exact Hne].
+                         unfold J. cbn [t_dash t_inflag t_npos]. repeat split; auto; try discriminate; try congruence.
+                     +++ apply (IH _ None (set_flag pst (c :: n') (noopt f))); [|exact Hr|exact Hne].
+                         unfold J. cbn [t_dash t_inflag t_npos p_stopped p_dash set_flag]. repeat split; auto; try discriminate.
+              ** (* a shorthand word *)
+                 destruct (chain fs (drop 1 w)) as [[sets pend']|] eqn:Ec; [|subst r; contradiction].
+                 rewrite (chain_pending fs (drop 1 w) Hq sets pend' Ec).
+                 apply (IH _ pend' (add_sets pst sets)); [|exact Hr|exact Hne].
+                 unfold J. cbn [t_dash t_inflag t_npos p_stopped p_dash add_sets]. repeat split; auto; try discriminate.
 Qed.
 
 (* ---------- what the parser does with one more word ---------- *)
 Lemma pending_last fs il ws : forall pend st0 st f, pfp fs il pend ws st0 = Pending st f ->
-  (ws = [] /\ pend = Some f /\ st = st0) \/ (ws <> [] /\ pfp fs il pend (removelast ws) st0 = Done st).
+  (ws = [] /\ pend = Some f /\ st = st0) \/
+  (ws <> [] /\ exists st1, pfp fs il pend (removelast ws) st0 = Done st1 /\ p_dash st1 = p_dash st /\ p_args st1 = p_args st).
 Proof.
   induction ws as [|w rest IH]; intros pend st0 st f H.
   - cbn [pfp] in H. destruct pend as [g|]; [|discriminate]. injection H as <- <-. left. auto.
   - right. split; [discriminate|].
     assert (Hrl : forall pd s', pfp fs il pd rest s' = Pending st f ->
-              (rest = [] /\ pd = Some f /\ st = s') \/ (removelast (w :: rest) = w :: removelast rest /\ pfp fs il pd (removelast rest) s' = Done st)).
+              (rest = [] /\ pd = Some f /\ st = s') \/
+              (removelast (w :: rest) = w :: removelast rest /\
+               exists st1, pfp fs il pd (removelast rest) s' = Done st1 /\ p_dash st1 = p_dash st /\ p_args st1 = p_args st)).
     { intros pd s' H'. destruct (IH pd s' st f H') as [?|[Hn ?]]; [left; assumption|right; split; [|assumption]].
       destruct rest; [contradiction|reflexivity]. }
     cbn [pfp] in H. destruct pend as [g|].
@@ -221,14 +256,20 @@ Proof.
       { destruct (Hrl _ _ H) as [(_ & E & _)|[E1 E2]]; [discriminate|]. rewrite E1. cbn [pfp]. rewrite Es, Ew. exact E2. }
       destruct (negb (starts_dash w) || str_eqb w (B [45])) eqn:Ep.
       { destruct (Hrl _ _ H) as [(_ & E & _)|[E1 E2]]; [discriminate|]. rewrite E1. cbn [pfp]. rewrite Es, Ew, Ep. exact E2. }
-      destruct (negb (has_prefix w dash2)) eqn:Eh; [discriminate|].
+      destruct (negb (has_prefix w dash2)) eqn:Eh.
+      { destruct (chain fs (drop 1 w)) as [[sets pd]|] eqn:Ech; [|discriminate].
+        destruct (Hrl _ _ H) as [(Er & E & Est)|[E1 E2]].
+        - subst rest st. cbn [removelast pfp]. exists st0. cbn [add_sets p_dash p_args]. auto.
+        - rewrite E1. cbn [pfp]. rewrite Es, Ew, Ep, Eh, Ech. exact E2. }
       destruct (long_parts w) as [n v] eqn:El. destruct n as [|c n']; [discriminate|].
       destruct (beq c (byte 45)) eqn:Ec; [discriminate|].
       destruct (find_flag fs (c :: n')) as [g|] eqn:Ef; [|discriminate].
       destruct v as [x|].
       { destruct (Hrl _ _ H) as [(_ & E & _)|[E1 E2]]; [discriminate|]. rewrite E1. cbn [pfp]. rewrite Es, Ew, Ep, Eh, El, Ec, Ef. exact E2. }
       destruct (takes_next g) eqn:Et.
-      * destruct (Hrl _ _ H) as [(-> & E & ->)|[E1 E2]]; [reflexivity|]. rewrite E1. cbn [pfp]. rewrite Es, Ew, Ep, Eh, El, Ec, Ef, Et. exact E2.
+      * destruct (Hrl _ _ H) as [(Er & E & Est)|[E1 E2]].
+        -- subst rest st. cbn [removelast pfp]. exists st0. auto.
+        -- rewrite E1. cbn [pfp]. rewrite Es, Ew, Ep, Eh, El, Ec, Ef, Et. exact E2.
       * destruct (Hrl _ _ H) as [(_ & E & _)|[E1 E2]]; [discriminate|]. rewrite E1. cbn [pfp]. rewrite Es, Ew, Ep, Eh, El, Ec, Ef, Et. exact E2.
 Qed.
 
@@ -248,7 +289,8 @@ Proof.
       rewrite H1 in *. cbn [state_of pending_of] in *. injection Hs as <-. cbn [p_dash p_args] in H3, H4.
       rewrite H3 in Hd. injection Hd as <-. rewrite H4, app_length. repeat split; auto. lia. }
     destruct (negb (starts_dash w) || str_eqb w (B [45])); [eapply IH; eassumption|].
-    destruct (negb (has_prefix w dash2)); [discriminate|].
+    destruct (negb (has_prefix w dash2)).
+    { destruct (chain fs (drop 1 w)) as [[sets pd]|]; [|discriminate]. eapply IH; [|eassumption|eassumption]; assumption. }
     destruct (long_parts w) as [n v]. destruct n as [|c n']; [discriminate|].
     destruct (beq c (byte 45)); [discriminate|].
     destruct (find_flag fs (c :: n')) as [g|]; [|discriminate].
@@ -314,13 +356,13 @@ Proof.
 Qed.
 
 Theorem traverse_slot_sound fs il ws cur :
-  Forall (fun w => wf_word w = true) ws -> slot_sound fs il ws (traverse fs il ws cur).
+  find_short fs (byte 61) = None -> slot_sound fs il ws (traverse fs il ws cur).
 Proof.
-  intro Hwf.
+  intro Hq.
   assert (J0 : J il t0 None p0) by (unfold J; cbn; repeat split; auto; try discriminate).
   destruct (pfp fs il None ws p0) as [st|st f|] eqn:Er.
   - (* the typed words parse completely *)
-    destruct (joint fs il ws Hwf t0 None p0 J0 _ Er ltac:(discriminate)) as [Hf Hc]. cbn [pending_of state_of] in Hf, Hc.
+    destruct (joint fs il ws Hq t0 None p0 J0 _ Er ltac:(discriminate)) as [Hf Hc]. cbn [pending_of state_of] in Hf, Hc.
     unfold traverse. cbv zeta. rewrite Hf, t_inargs_all. cbn [t_inargs t0 app]. unfold parse at 1. rewrite pfp_is_pf_parse, Er. cbn [to_presult].
     destruct (p_dash st) as [d|] eqn:Ed.
     + destruct (pfp_dash_inv fs il ws None p0 eq_refl st d) as (Hle & Hs & _); [rewrite Er; reflexivity|exact Ed|].
@@ -343,11 +385,11 @@ Proof.
            split; [rewrite nth_error_app2, Nat.sub_diag by lia; reflexivity|]. rewrite app_length. cbn. lia.
         -- rewrite (plain_not_dash2 p Hp) in H. unfold plain in Hp. rewrite Hp in H. cbn in H. injection H as <-. cbn [p_dash p_args]. split; [exact Ed|].
            split; [rewrite nth_error_app2, Nat.sub_diag by lia; reflexivity|]. rewrite app_length. cbn. lia.
-  - (* the last typed word is a flag waiting for its argument *)
-    destruct (joint fs il ws Hwf t0 None p0 J0 _ Er ltac:(discriminate)) as [Hf _]. cbn [pending_of] in Hf.
+  - (* the last typed word leaves a flag waiting for its argument *)
+    destruct (joint fs il ws Hq t0 None p0 J0 _ Er ltac:(discriminate)) as [Hf _]. cbn [pending_of] in Hf.
     unfold traverse. cbv zeta. rewrite Hf, t_inargs_all. cbn [t_inargs t0 app].
-    destruct (pending_last fs il ws None p0 st f Er) as [(_ & E & _)|[_ Hrl]]; [discriminate|].
-    unfold parse at 1. rewrite pfp_is_pf_parse, Hrl. cbn [to_presult].
+    destruct (pending_last fs il ws None p0 st f Er) as [(_ & E & _)|[_ (st1 & Hrl & Hd1 & _)]]; [discriminate|].
+    unfold parse at 1. rewrite pfp_is_pf_parse, Hrl. cbn [to_presult]. rewrite Hd1.
     destruct (p_dash st) as [d|] eqn:Ed.
     + destruct (pfp_dash_inv fs il ws None p0 eq_refl st d) as (_ & _ & Hp); [rewrite Er; reflexivity|exact Ed|]. rewrite Er in Hp. discriminate.
     + cbn [slot_sound app]. intros v st' H. rewrite parse_app, Er in H. cbn in H. injection H as <-. cbn [set_flag p_sets].
@@ -359,26 +401,25 @@ Qed.
 
 (* ---------- non-vacuity: every kind of slot arises on lines the program accepts ---------- *)
 Definition ex_flags : list flag :=
-  [mkFlag (B [115;116;114]) KStr; mkFlag (B [98;111;111;108]) KBool; mkFlag (B [104;101;108;112]) KBool].   (* str bool help *)
+  [mkFlag (B [115;116;114]) KStr (B [115]); mkFlag (B [98;111;111;108]) KBool (B [98]); mkFlag (B [104;101;108;112]) KBool (B [104])].   (* str -s, bool -b, help -h *)
 Definition w_str : str := B [45;45;115;116;114].                       (* --str *)
 Definition w_str_eq : str := B [45;45;115;116;114;61].                 (* --str= *)
 Definition w_bool_eq : str := B [45;45;98;111;111;108;61;116].         (* --bool=t *)
 Definition w_x : str := B [120].
+Definition w_bs : str := B [45;98;115].                                (* -bs : bool, then str waiting for its value *)
+Definition w_sv : str := B [45;115;118].                               (* -sv : str = v *)
 Example ex_slots :
   traverse ex_flags true [w_x; w_str] [] = SFlagValue (B [115;116;114]) [] /\
+  traverse ex_flags true [w_x; w_bs] [] = SFlagValue (B [115;116;114]) [] /\
   traverse ex_flags true [w_x] w_str_eq = SFlagValue (B [115;116;114]) w_str_eq /\
   traverse ex_flags true [] w_bool_eq = SBoolValue (B [45;45;98;111;111;108;61]) /\
   traverse ex_flags true [w_x; w_str; w_x] w_x = SPositional 1 /\
+  traverse ex_flags true [w_sv; B [45]] w_x = SPositional 1 /\
   traverse ex_flags false [w_x; w_str] w_x = SPositional 2 /\
+  traverse ex_flags false [B [45]; w_str] w_x = SPositional 2 /\
   traverse ex_flags true [w_x; dash2; w_str] w_x = SDash 1 /\
   (exists st, parse ex_flags true [w_x; w_str; w_x; w_x] = POk st) /\
-  (exists st, parse ex_flags true [w_x; dash2; w_str; w_x] = POk st).
-Proof. repeat split; try reflexivity; eexists; vm_compute; reflexivity. Qed.
-
-(* outside the fragment the statement is false of the code as it stands: a lone dash is a
-   positional for the parser (it stops a non-interspersed parse) and a flag for traverse *)
-Theorem lone_dash_refuted :
-  ~ slot_sound ex_flags false [B [45]; w_str] (traverse ex_flags false [B [45]; w_str] []).
-Proof.
-  vm_compute. intro H. specialize (H w_x _ eq_refl). discriminate.
-Qed.
+  (exists st, parse ex_flags true [w_x; w_bs; w_x] = POk st /\ p_sets st = [(B [98;111;111;108], B [116;114;117;101]); (B [115;116;114], w_x)]) /\
+  (exists st, parse ex_flags true [w_x; dash2; w_str; w_x] = POk st) /\
+  find_short ex_flags (byte 61) = None.
+Proof. repeat split; try reflexivity; eexists; vm_compute; try split; reflexivity. Qed.
